@@ -1,6 +1,7 @@
 import LenaModel.DriverUtil
 import LenaModel.Model.C08
 import LenaModel.Model.C08Spec
+import LenaModel.Model.C08Heap
 /-! Model driver for C08.  Values: a scalar is the JSON scalar (`null`, booleans, integers, strings), a
 dictionary is `{"d":[[key,value],…]}` in insertion order, a list `{"L":[…]}`, a float `{"f":repr}`, an object
 of another class `{"o":str|null}` (its `str()`, `null` when that raises).  Exceptions: `{"e":"LenaKeyError"}` etc.,
@@ -27,7 +28,15 @@ of another class `{"o":str|null}` (its `str()`, `null` when that raises).  Excep
   {"op":"setctx","key":str,"value":V,"ctxs":[V,…]} -> {"init":"ok"|exc,"get0":…,"steps":[{"set":"ok"|exc,"get":{"r":V}|{"e":..}},…]}
   {"op":"pyeq","vs":[V,…]}                         -> {"r":[[bool,…],…]}   (pyEq of every pair)
   {"op":"to_string_j","vs":[J,…]}                  -> {"r":[{"r":str}|{"e":..},…]}   J: as V, and {"D":[[scalar,J],…]} a dictionary with any scalar keys
-  {"op":"jinja","t":str}                           -> {"r":[["lit",s]|["field",[..]],…]}|{"e":"syntax"|"foreign"} -/
+  {"op":"jinja","t":str}                           -> {"r":[["lit",s]|["field",[..]],…]}|{"e":"syntax"|"foreign"}
+Heap model (Model/C08Heap.lean); H: as V, and {"T":[H,…]} a tuple, {"S":[H,…]} a set, {"FS":[H,…]} a frozenset, {"BA":[int,…]} a
+bytearray, {"box":H} an object of a user class with state.  Addresses are given in reading order.
+  {"op":"to_string_h","vs":[H,…]}                  -> {"r":[{"r":str}|{"e":..},…],"eq":[[bool,…],…],"jeq":[[bool,…],…]}
+        (toStringH; pyEqH of every pair; pyEq of the values with tuples read as lists)
+  {"op":"alias","sub":[str,…],"rec":b,"src":{"simple":H}|{"key":[str,…],"default":H?},"srcpath":[str,…]|null,"items":[H|null,…]}
+        -> {"calls":[{"skip":true}|{"ctx":H,"leaks":[str,…]},…]}   UpdateContext.__call__ with identities (ucCallH), then every
+           object reachable from the addressed item is changed in place (pokeH) and the update argument, the default and the item at
+           srcpath are read again: "update-argument" / "default" / "source-item" is listed when it changed -/
 open Lean Lena.Drv Lena.C08
 
 partial def toVal (j : Json) : Option Val :=
@@ -271,8 +280,127 @@ def handleUC (j : Json) : Json :=
           ("calls", ofList (fun it => ofRes ofItem (ucCall uc it)) items)]
   | _, _ => err "bad uc args"
 
+/-! ### the heap model -/
+
+mutual
+partial def toHVal (n : Nat) (j : Json) : Option (HVal × Nat) :=
+  match j with
+  | .obj _ =>
+    match arr? (getD j "d"), arr? (getD j "L"), arr? (getD j "T") with
+    | some a, _, _ => (toHEntries (n + 1) a.toList).map (fun r => (HVal.dict n r.1, r.2))
+    | _, some a, _ => (toHList (n + 1) a.toList).map (fun r => (HVal.list n r.1, r.2))
+    | _, _, some a => (toHList n a.toList).map (fun r => (HVal.tuple r.1, r.2))
+    | _, _, _ =>
+      match arr? (getD j "S"), arr? (getD j "FS"), arr? (getD j "BA"), j.getObjVal? "box" with
+      | some a, _, _, _ => (toHList (n + 1) a.toList).map (fun r => (HVal.cell "set" n (.tuple r.1), r.2))
+      | _, some a, _, _ => (toHList (n + 1) a.toList).map (fun r => (HVal.cell "frozenset" n (.tuple r.1), r.2))
+      | _, _, some a, _ => (toHList (n + 1) a.toList).map (fun r => (HVal.cell "bytearray" n (.tuple r.1), r.2))
+      | _, _, _, .ok b => (toHVal (n + 1) b).map (fun r => (HVal.cell "box" n r.1, r.2))
+      | _, _, _, _ =>
+        match toVal j with
+        | some (.leaf a) => some (.leaf a, n)
+        | _ => none
+  | _ =>
+    match toVal j with
+    | some (.leaf a) => some (.leaf a, n)
+    | _ => none
+partial def toHEntries (n : Nat) : List Json → Option (HEntries × Nat)
+  | [] => some ([], n)
+  | e :: r =>
+    match arr? e with
+    | some #[k, v] =>
+      match str? k, toHVal n v with
+      | some k, some (hv, m) => (toHEntries m r).map (fun x => ((k, hv) :: x.1, x.2))
+      | _, _ => none
+    | _ => none
+partial def toHList (n : Nat) : List Json → Option (List HVal × Nat)
+  | [] => some ([], n)
+  | v :: r =>
+    match toHVal n v with
+    | some (hv, m) => (toHList m r).map (fun x => (hv :: x.1, x.2))
+    | none => none
+end
+
+partial def ofHVal : HVal → Json
+  | .leaf a => ofVal (.leaf a)
+  | .dict _ es => Json.mkObj [("d", Json.arr (es.map (fun (k, v) => Json.arr #[Json.str k, ofHVal v])).toArray)]
+  | .list _ xs => Json.mkObj [("L", Json.arr (xs.map ofHVal).toArray)]
+  | .tuple xs => Json.mkObj [("T", Json.arr (xs.map ofHVal).toArray)]
+  | .cell k _ x =>
+    let members : List Json := match x with
+      | .tuple xs => xs.map ofHVal
+      | y => [ofHVal y]
+    if k = "set" then Json.mkObj [("S", Json.arr members.toArray)]
+    else if k = "frozenset" then Json.mkObj [("FS", Json.arr members.toArray)]
+    else if k = "bytearray" then Json.mkObj [("BA", Json.arr members.toArray)]
+    else Json.mkObj [("box", ofHVal x)]
+
+def pokeAll (ts : List Nat) (v : HVal) : HVal := ts.foldl (fun v t => pokeH t v) v
+
+def sameH (a b : HVal) : Bool := (ofHVal a).compress == (ofHVal b).compress
+
+def handleAlias (j : Json) : Json :=
+  let src := getD j "src"
+  let srcpath : Option (List String) := strList? (getD j "srcpath")
+  match strList? (getD j "sub"), bool? (getD j "rec"), arr? (getD j "items") with
+  | some sub, some rec, some items =>
+    let one (it : Json) : Json :=
+      -- the context (object 0) first, then the default / the update argument
+      let ctx? : Option (HEntries × Nat) :=
+        if it.isNull then some ([], 1) else
+          match toHVal 0 it with
+          | some (.dict _ es, m) => some (es, m)
+          | _ => none
+      match ctx? with
+      | none => err "alias: bad item"
+      | some (ctx, m) =>
+        let parsed : Option (SrcH × Option HVal × Option HVal × Nat) :=
+          match src.getObjVal? "simple" with
+          | .ok u => (toHVal m u).map (fun r => (SrcH.simple r.1, some r.1, none, r.2))
+          | .error _ =>
+            match strList? (getD src "key"), src.getObjVal? "default" with
+            | some key, .ok d => (toHVal m d).map (fun r => (SrcH.ctxValue key (some r.1), none, some r.1, r.2))
+            | some key, .error _ => some (SrcH.ctxValue key none, none, none, m)
+            | none, _ => none
+        match parsed with
+        | none => err "alias: bad src"
+        | some (s, upd, dflt, n) =>
+          match ucCallH rec sub s n ctx with
+          | none => Json.mkObj [("skip", true)]
+          | some (c', _) =>
+            let item := getPathH (.dict 0 c') sub
+            let ts := match item with
+              | some v => v.ids
+              | none => []
+            let changed (o : Option HVal) : Bool := match o with
+              | some v => !sameH (pokeAll ts v) v
+              | none => false
+            let srcChanged : Bool := match srcpath with
+              | some sp =>
+                (match getPathH (.dict 0 c') sp, getPathH (pokeAll ts (.dict 0 c')) sp with
+                 | some a, some b => !sameH a b
+                 | none, none => false
+                 | _, _ => true)
+              | none => false
+            let leaks := (if changed upd then ["update-argument"] else []) ++ (if changed dflt then ["default"] else []) ++
+              (if srcChanged then ["source-item"] else [])
+            Json.mkObj [("ctx", ofHVal (.dict 0 c')), ("leaks", ofList Json.str leaks)]
+    Json.mkObj [("calls", ofList one items.toList)]
+  | _, _, _ => err "bad alias args"
+
+def handleToStringH (j : Json) : Json :=
+  match (arr? (getD j "vs")).bind (fun a => a.toList.mapM (fun v => (toHVal 0 v).map (·.1))) with
+  | some vs =>
+    let sp := fun (t : List Tok) => Json.str (String.join (t.map Tok.spell))
+    Json.mkObj [("r", ofList (fun v => ofRes sp (toStringH v)) vs),
+                ("eq", ofList (fun a => ofList (fun b => Json.bool (pyEqH a b)) vs) vs),
+                ("jeq", ofList (fun (a : HVal) => ofList (fun (b : HVal) => Json.bool (pyEq a.toVal b.toVal)) vs) vs)]
+  | none => err "bad to_string_h args"
+
 def handle (j : Json) : Json :=
   match str? (getD j "op") with
+  | some "alias" => handleAlias j
+  | some "to_string_h" => handleToStringH j
   | some "get" =>
     match toVal (getD j "d"), (arr? (getD j "keys")).bind (fun a => a.toList.mapM toKeyArg), optVal j "default" with
     | some d, some ks, dflt =>
